@@ -134,19 +134,63 @@ def frame_record(f) -> dict:
     return {"o": list(o), "valid": bool(valid), "haspayload": payload is not None, "payload": list(payload or b""),
             "dst": list(dst or b""), "src": list(src or b""), "ctrl": -1 if ctrl is None else ctrl,
             "hcs": -1 if hcs is None else hcs, "fcs": -1 if fcs is None else fcs, "flen": -1 if flen is None else flen,
-            "ftype": -1 if ftype is None else ftype, "seg": bool(seg), "ws": 0, "we": 0, "raised": err[0] if err else ""}
+            "ftype": -1 if ftype is None else ftype, "seg": bool(seg), "ws": 0, "we": 0, "raised": err[0] if err else "", "stable": True}
 
 
-def record_run(cfg, chunks: list[bytes], reader=None) -> dict:
+def recheck_stable(kept, lists=()) -> None:
+    """Ask every delivered message object again, after the whole stream has been fed: a user may keep the object while reading on.
+    `lists`: (list object returned by read(), its records) per call - a list handed out again, or changed afterwards, is not the caller's."""
+    seen: dict = {}
+    for res, recs in lists:
+        same_obj = id(res) in seen and seen[id(res)][0] is res
+        changed = len(res) != len(recs)
+        if same_obj or changed:
+            for r in recs + (seen[id(res)][1] if same_obj else []):
+                r["unstable_list"] = True
+        seen[id(res)] = (res, recs)
+    for obj, rec in kept:
+        try:
+            same = (bytes(obj.as_bytes or b"") == bytes(rec["o"]) and bool(obj.is_valid) == rec["valid"]
+                    and bytes(obj.payload or b"") == bytes(rec["payload"]))
+        except Exception:  # noqa: BLE001
+            same = False
+        rec["stable"] = bool(same) and not rec.pop("unstable_list", False)
+
+
+_BYSTANDER = [b"\x7e\xa0\x09\x01\x7d", b"\x03\x13\x7d", b"\x7e", b"\x7e\xa0\x7d\x5e\x01\x7d", b"\xff\x7d\x7e\xa0", b"", b"\x7d"]
+
+
+def record_run(cfg, chunks: list[bytes], reader=None, reuse=False) -> dict | None:
+    """reuse: every chunk is handed over in ONE bytearray object that the caller refills (a receive buffer). The signature says bytes,
+    so a reader that refuses (TypeError) is within its rights - the run is then dropped (None); a reader that accepts it must read it right."""
     from han.hdlc import HdlcFrameReader
     r = reader or HdlcFrameReader(use_octet_stuffing=cfg[0], use_abort_sequence=cfg[1])
+    # a second reader lives in the same process and is used between the calls (two meters, two connections): readers are independent objects
+    by = HdlcFrameReader(use_octet_stuffing=cfg[0], use_abort_sequence=cfg[1])
     calls = []
-    for ch in chunks:
+    kept = []
+    lists = []
+    rbuf = bytearray()
+    for n, ch in enumerate(chunks):
         raised = ""
         frames = []
         try:
-            res = r.read(ch)
+            by.read(_BYSTANDER[n % len(_BYSTANDER)])
+        except Exception:  # noqa: BLE001
+            pass
+        try:
+            if reuse:
+                rbuf[:] = ch
+                res = r.read(rbuf)
+            else:
+                res = r.read(ch)
             frames = [frame_record(f) for f in res]
+            kept += list(zip(res, frames))
+            lists.append((res, frames))
+        except TypeError as ex:
+            if reuse:
+                return None
+            raised = type(ex).__name__
         except Exception as ex:  # noqa: BLE001
             raised = type(ex).__name__
         try:
@@ -154,6 +198,7 @@ def record_run(cfg, chunks: list[bytes], reader=None) -> dict:
         except Exception:  # noqa: BLE001
             hunt, esc = False, False
         calls.append({"chunk": list(ch), "raised": raised, "hunt": hunt, "esc": esc, "frames": frames})
+    recheck_stable(kept, lists)
     return {"calls": calls}
 
 
@@ -213,6 +258,11 @@ def make_trace(cfg, data: bytes, cutsets: list[list[int]], *, mode="free", plan=
         run = record_run(cfg, split(data, cuts))
         add_witness(cfg, run)
         runs.append(run)
+    if len(cutsets) > 1 and len(data) < 20000:      # one more run: the last chunking again, through a reused bytearray
+        run = record_run(cfg, split(data, cutsets[-1]), reuse=True)
+        if run is not None:
+            add_witness(cfg, run)
+            runs.append(run)
     return {"id": stable_id("hdlc", cfg, data.hex(), cutsets, mode), "canary": "", "origin": origin,
             "cfg": {"stuffing": cfg[0], "abort": cfg[1]}, "mode": mode, "plan": plan or [], "runs": runs,
             "nodrift": nodrift}
@@ -328,7 +378,21 @@ def special_check_octets(rng: random.Random, it: dict, want: str) -> dict:
 _COMBOS = [(d, s_) for d in (1, 2, 3, 4) for s_ in (1, 2, 3, 4)]
 
 
-def clean_plan(rng: random.Random, cfg, nframes_: int, sizes=None, fresh_noise=True) -> list[dict]:
+def zero_check_item(rng: random.Random) -> dict:
+    """Well-formed frames whose header check sequence or frame check sequence is 0x0000 (found by search; TLC re-derives the wire)."""
+    it = item_frame(rng, sizes=[0])
+    it["type"], it["seg"], it["ctrl"] = 0xA, False, 0x13
+    k = rng.randrange(3)
+    if k == 0:
+        it["dst"], it["src"], it["info"] = [3], [40, 221], []                                   # header-only frame, HCS = 0000
+    elif k == 1:
+        it["dst"], it["src"], it["info"] = [3], [248, 137], [rng.randrange(256) for _ in range(4)]   # HCS = 0000, FCS arbitrary
+    else:
+        it["dst"], it["src"], it["info"] = [1], [3], [1, 2, 202, 202]                            # FCS = 0000
+    return it
+
+
+def clean_plan(rng: random.Random, cfg, nframes_: int, sizes=None, fresh_noise=True, dense=None) -> list[dict]:
     plan = []
     if fresh_noise and rng.random() < 0.4:
         plan.append(item_noise(bytes(rng.choice([ESC, 0x5E, 0, 1, 0xA0, rng.randrange(256)]) for _ in range(rng.randint(1, 20))
@@ -338,9 +402,11 @@ def clean_plan(rng: random.Random, cfg, nframes_: int, sizes=None, fresh_noise=T
         for _try in range(50):
             # every combination of 1..4-octet addresses comes round; a fifth of the frames get a check sequence with a
             # flag/escape octet in it (the reader's abort / stuffing / delimiter logic looks at exactly those places)
-            it = item_frame(rng, sizes=sizes, addr=_COMBOS[rng.randrange(16)] if rng.random() < 0.5 else None)
+            it = item_frame(rng, sizes=sizes, addr=_COMBOS[rng.randrange(16)] if rng.random() < 0.5 else None, dense=dense)
             if rng.random() < 0.2 and (sizes is None):
                 it = special_check_octets(rng, it, rng.choice(["fcs_last", "fcs_first", "hcs"]))
+            elif rng.random() < 0.12 and (sizes is None):
+                it = zero_check_item(rng)
             if in_domain_c02(cfg, it):
                 break
         else:
@@ -383,11 +449,13 @@ def resync_plan(rng: random.Random, cfg, kind: str, nsuffix: int, big: bool = Fa
         plan = [item_noise(b"\x00")]
     plan.append(item_flags(rng.choice([1, 2])))
     for j in range(nsuffix):
-        if densebig and j % 2 == 1:
+        if cfg[0] and not densebig and j == 2 and rng.random() < 0.3:
+            it = item_frame(rng, sizes=[9999], tag=j, dense=False)                              # exactly 2047 octets
+        elif densebig and j % 2 == 1:
             # stuffing: a frame within the length limit whose wire form (escapes included) is far above it
-            it = item_frame(rng, sizes=[1100, 1209, 1500, 2030], tag=j, dense=True)
+            it = item_frame(rng, sizes=[1100, 1209, 1500, 2030, 9999], tag=j, dense=True)        # 9999: capped to the largest frame (2047 octets)
         else:
-            it = item_frame(rng, maxinfo=None if big else 80, sizes=[2, 3, 5, 8, 16, 40] + ([400, 900] if big else []), tag=j)
+            it = item_frame(rng, maxinfo=None if big else 80, sizes=[2, 3, 5, 8, 16, 40] + ([400, 900, 9999] if big else []), tag=j)
         if len(it["info"]) < 2:
             it["info"] = [j >> 8 & 0xFF, j & 0xFF]
         if not cfg[0]:
@@ -567,6 +635,8 @@ def run_models(chk: Check, invariants: list[str], *, libs=("std", "max"), cfgs=C
 
 
 def _mk_free(args):
+    from .core import set_logging
+    set_logging(args)
     seed, n, ncuts = args
     rng = random.Random(seed)
     out = []
@@ -579,6 +649,8 @@ def _mk_free(args):
 
 
 def _mk_clean(args):
+    from .core import set_logging
+    set_logging(args)
     seed, n, ncuts, big = args
     rng = random.Random(seed)
     out = []
@@ -589,7 +661,7 @@ def _mk_clean(args):
         if big and k % 5 == 0:
             sizes = [2029, 2030, 2033, 2036, 2037, 2038, 1500, 1024]  # capped at 2047 - header - 4 by item_frame
             nfr = rng.randint(1, 3)
-        plan = clean_plan(rng, cfg, nfr, sizes=sizes)
+        plan = clean_plan(rng, cfg, nfr, sizes=sizes, dense=True if (sizes and k % 10 == 0) else None)
         data = plan_wire(cfg, plan)
         cuts = chunkings(rng, len(data), ncuts)
         out.append(make_trace(cfg, data, cuts, mode="clean", plan=plan, origin="gen:clean" + (":max" if sizes else "")))
@@ -597,6 +669,8 @@ def _mk_clean(args):
 
 
 def _mk_resync(args):
+    from .core import set_logging
+    set_logging(args)
     seed, n, ncuts, big = args
     rng = random.Random(seed)
     out = []
@@ -763,6 +837,8 @@ def _sig(cfg, chunks):
 
 
 def _c06_job(args):
+    from .core import set_logging
+    set_logging(args)
     cfg, lo, hi, tails, seed, allcuts, blen = args
     rng = random.Random(seed)
     traces, vac, nstreams, nruns = [], 0, 0, 0
@@ -792,6 +868,8 @@ def _c06_job(args):
 
 
 def _mk_c06_random(args):
+    from .core import set_logging
+    set_logging(args)
     seed, n = args
     rng = random.Random(seed)
     out = []
